@@ -8,9 +8,10 @@ use bsv_core::model::*;
 use bsv_core::runner::panic_message;
 use bsv_core::talloc::with_ctx;
 
-/// Panicking methods reached through a trait object cannot tell "claimed" from "out of memory"
-/// and call handle_alloc_error (abort) in the pinned tree; see known_findings.json (C14).
-pub const DYN_CLAIMED_UNWINDS: bool = false;
+/// Panicking methods reached through a trait object used to abort (handle_alloc_error) on a claimed
+/// allocator; fixed in /repo (known_findings.json, C14). With the fix they unwind like the typed paths,
+/// so the combination is generated.
+pub const DYN_CLAIMED_UNWINDS: bool = true;
 
 pub struct ScopeEntry {
     pub seq_mark: u64,
@@ -134,7 +135,7 @@ impl<'c> Interp<'c> {
         }
         let k = r.b(4) as usize % 9;
         let exit_panic = r.b(11) & 4 != 0;
-        let replay = r.b(11) & 8 != 0 && which == Kind::Scoped && !self.plan_enabled;
+        let replay = r.b(11) & 8 != 0 && which == Kind::Scoped && !self.plan_enabled && !self.no_replay;
         let n = 1usize << (r.b(10) % 5);
         let own = api.x_info().min_align;
         let what = match which {
